@@ -178,7 +178,7 @@ func runC14(c *core.Ctx) {
 				// plans that reach into the second and third 16-channel block
 				for k := 10 + r.Intn(14); k > 0; k-- {
 					f := reg.Uplink[0].Freq + uint32(1+r.Intn(60))*200000
-					if b.AddChannel(f, 0, 5) == nil {
+					if b.AddChannel(f, 0, 5) == nil && len(b.GetUplinkChannelIndices()) > n { // (an AddChannel that folds an exact duplicate into the existing entry adds nothing)
 						custom[n] = true
 						enabled[n] = true
 						n++
@@ -192,7 +192,7 @@ func runC14(c *core.Ctx) {
 				case 0, 1:
 					if reg.ExtraChannels && extra < 24 {
 						f := reg.Uplink[0].Freq + uint32(1+r.Intn(60))*200000
-						if b.AddChannel(f, 0, 5) == nil {
+						if b.AddChannel(f, 0, 5) == nil && len(b.GetUplinkChannelIndices()) > n { // (an AddChannel that folds an exact duplicate into the existing entry adds nothing)
 							custom[n] = true
 							enabled[n] = true
 							n++
